@@ -1441,6 +1441,10 @@ func (c *Client) sendSingleMsg(client *smtp.Client, message *Msg) error {
 	}
 	_, err = message.WriteTo(writer)
 	if err != nil {
+		// A DATA section cannot be aborted within the protocol. If we kept the connection, the
+		// next command line would terminate the open DATA section and the server would accept
+		// the incomplete message. Closing the connection makes the server discard it.
+		_ = client.Close()
 		return &SendError{
 			Reason: ErrWriteContent, errlist: []error{err}, isTemp: isTempError(err),
 			affectedMsg: message, errcode: errorCode(err),
